@@ -95,12 +95,17 @@ func (p *Provider) Run(ctx context.Context, deps core.ProviderDeps) (err error) 
 }
 
 func (p *Provider) runFullScan(ctx context.Context) error {
+	// With chosen cases decoder does not limit ammo (see NewProvider): limit counts delivered ammo only.
+	delivered := uint(0)
 	for {
 		if err := ctx.Err(); err != nil {
 			if !errors.Is(err, context.Canceled) {
 				err = xerrors.Errorf("error from context: %w", err)
 			}
 			return err
+		}
+		if len(p.Config.ChosenCases) > 0 && p.Config.Limit != 0 && delivered >= p.Config.Limit {
+			return nil
 		}
 		ammo, err := p.Decoder.Scan(ctx)
 		if err != nil {
@@ -121,6 +126,7 @@ func (p *Provider) runFullScan(ctx context.Context) error {
 			}
 			return err
 		case p.Sink <- ammo:
+			delivered++
 		}
 	}
 }
